@@ -534,6 +534,14 @@ func cfWholeBase(dir string) map[string]string {
 
 // exprForm rewrites the sub-tree below prefix as one inline "prefix!" expression.
 func exprForm(cfg map[string]string, prefix string) map[string]string {
+	return exprFormStyled(cfg, prefix, "camel")
+}
+
+// exprFormStyled additionally respells the keys inside the expression (identifiers cannot carry '-').
+func exprFormStyled(cfg map[string]string, prefix, style string) map[string]string {
+	if style == "kebab" {
+		style = "snake"
+	}
 	out := map[string]string{}
 	var inner []string
 	typ := ""
@@ -548,7 +556,7 @@ func exprForm(cfg map[string]string, prefix string) map[string]string {
 			if _, err := strconv.ParseFloat(v, 64); err != nil && !isIdent(v) {
 				val = strconv.Quote(v)
 			}
-			inner = append(inner, rest+" = "+val)
+			inner = append(inner, respell(rest, style)+" = "+val)
 		} else {
 			out[k] = v
 		}
@@ -592,7 +600,7 @@ func cfWhole(r *hx.Result, rng *rand.Rand, tmp string, mutations int) {
 			h := log.GetLogger("asy")
 			cfg := base
 			if strings.HasPrefix(form, "expr:") {
-				cfg = exprForm(base, strings.TrimPrefix(form, "expr:"))
+				cfg = exprFormStyled(base, strings.TrimPrefix(form, "expr:"), style)
 			}
 			m := map[string]string{}
 			for k, v := range cfg {
